@@ -31,6 +31,7 @@ class ScriptedAnalysis(af.Analysis):
     def __init__(self):
         self.next = 0.0
         self.calls = 0
+        self.wrap = "float"
 
     def log_likelihood_function(self, instance):
         self.calls += 1
@@ -41,6 +42,11 @@ class ScriptedAnalysis(af.Analysis):
             raise ValueError("scripted")
         if o == "nan":
             return float("nan")
+        # what user likelihoods return in practice: Python floats, numpy scalars, 0-d arrays
+        if self.wrap == "np.float64":
+            return np.float64(o)
+        if self.wrap == "0-d array":
+            return np.array(o)
         return o
 
 
@@ -134,6 +140,9 @@ def one_case(ctx, prog, spec=None, label="gen"):
         return
 
     analysis = ScriptedAnalysis()
+    analysis.wrap = (spec or {}).get("wrap") or rng.choice(["float", "float", "np.float64", "0-d array"])
+    case["spec"]["wrap"] = analysis.wrap
+    ctx.hit("likelihood-type:" + analysis.wrap)
     ulps = 8 if has_lg or c01.has_loose(comp) or c01.has_loose(wire_asserts) else 2
     impl_results = []
     kinds = set()
